@@ -18,6 +18,8 @@ use versatiles_core::json::{JsonArray, JsonObject, JsonValue};
 
 #[path = "c17_tj.rs"]
 mod tj;
+#[path = "c17_nd.rs"]
+mod nd;
 #[path = "c17_io.rs"]
 mod io;
 
@@ -601,6 +603,7 @@ fn replay_line(out: &mut Out, line: &str) {
 			None => out.notes.push(format!("unreadable replay line {line}")),
 		},
 		["C17p", h] => emit_text(out, &unhex(h), "replay"),
+		["C17n", _] => nd::replay_line(out, line),
 		_ if t[0] == "C17c" || t[0] == "C17h" => io::replay_line(out, line),
 		_ if t[0] == "C17t" || t[0] == "C17u" => tj::replay_line(out, line),
 		_ => out.notes.push(format!("unknown replay line {line}")),
@@ -716,6 +719,7 @@ pub fn run(args: &Args) {
 	}
 
 	io::run(args, &mut out, &mut rng);
+	nd::run(args, &mut out, &mut rng);
 	tj::run(args, &mut out, &mut rng);
 	out.finish();
 }
